@@ -95,7 +95,7 @@ Definition emits (p : params) (s : st) (o : op) (s' : st) (c : out) : Prop :=
 Lemma step_cases p s o :
   snd (step p s o) = [] \/ exists c, snd (step p s o) = [c] /\ emits p s o (fst (step p s o)) c.
 Proof.
-  destruct o as [| |r|now d]; cbn [step snd fst]; try (left; reflexivity).
+  destruct o as [| |r|now d|nowf]; cbn [step snd fst]; try (left; reflexivity).
   destruct (active s) eqn:Ea; [|left; reflexivity].
   unfold evaluate. destruct (tpv s) as [r|] eqn:Et; [|left; reflexivity].
   assert (Hsend : forall cond,
@@ -116,7 +116,7 @@ Qed.
 
 Lemma step_wf p s o : params_ok p -> wf p s -> wf p (fst (step p s o)).
 Proof.
-  intros Hp Hw. destruct o as [| |r|now d]; cbn [step fst].
+  intros Hp Hw. destruct o as [| |r|now d|nowf]; cbn [step fst].
   - unfold start. destruct (active s); [exact Hw|]. unfold wf, params_ok in *; cbn; lia.
   - exact Hw.
   - exact Hw.
@@ -126,6 +126,7 @@ Proof.
     + destruct ((p_dcc p <=? now - t) && dynamics p s r d); [apply send_wf; assumption|].
       destruct ((t_gen s <=? now - t) && (p_dcc p <=? now - t)); [apply send_wf; assumption|exact Hw].
     + apply send_wf; assumption.
+  - exact Hw.
 Qed.
 
 (* A step that emits nothing and is not Start leaves the CAM bookkeeping alone. *)
@@ -141,7 +142,8 @@ Lemma step_silent p s o :
   (tpv s <> None -> tpv s' <> None).
 Proof.
   intros Ho Hs. destruct (step_cases p s o) as [_|(c & Ec & _)]; [|rewrite Ho in Ec; discriminate].
-  destruct o as [| |r|now d]; try discriminate; cbn [step fst] in *.
+  destruct o as [| |r|now d|nowf]; try discriminate; cbn [step fst] in *;
+    [| | |repeat split; auto; intros; congruence].
   - cbn. repeat split; auto; try discriminate.
   - cbn. repeat split; auto; try discriminate.
   - destruct (active s) eqn:Ea.
@@ -225,10 +227,11 @@ Proof.
   unfold no_start in Hn. cbn [forallb] in Hn. apply andb_true_iff in Hn. destruct Hn as [Hn1 Hn2].
   rewrite run_cons. cbn [snd].
   assert (E : snd (step p s o) = [] /\ active (fst (step p s o)) = false).
-  { destruct o as [| |r|now d]; try discriminate; cbn [step fst snd].
+  { destruct o as [| |r|now d|nowf]; try discriminate; cbn [step fst snd].
     - split; [reflexivity|reflexivity].
     - split; [reflexivity|exact Ha].
-    - rewrite Ha. split; [reflexivity|exact Ha]. }
+    - rewrite Ha. split; [reflexivity|exact Ha].
+    - split; [reflexivity|exact Ha]. }
   destruct E as [E1 E2]. rewrite E1. cbn [app]. apply IH; assumption.
 Qed.
 
@@ -287,7 +290,8 @@ Proof.
   apply andb_true_iff in Hn1. destruct Hn1 as [Hs1 Hs2]. apply negb_true_iff in Hs1, Hs2.
   destruct (step_silent p s o Hm1 Hs1) as (A1 & A2 & A3 & A4 & A5 & A6 & A7 & A8 & A9 & A10 & A11).
   assert (Hw' : wf p (fst (step p s o))) by (apply step_wf; assumption).
-  destruct o as [| |r|now d]; try discriminate; cbn [dense last_check] in *.
+  destruct o as [| |r|now d|nowf]; try discriminate; cbn [dense last_check] in *;
+    [| |apply (IH (fst (step p s (CheckFail nowf))) c0); auto; try congruence; try (rewrite A8; auto)].
   - apply (IH (fst (step p s (Rep r))) c0); auto; try congruence; try (rewrite A8; auto).
   - destruct Hd as [Hd1 Hd2].
     apply (IH (fst (step p s (Check now d))) now); auto; try congruence; try (rewrite A8; auto; fail).
@@ -489,13 +493,14 @@ Proof.
   unfold no_rep in Hn. cbn [forallb] in Hn. apply andb_true_iff in Hn. destruct Hn as [Hn1 Hn2].
   rewrite run_cons. cbn [fst]. rewrite (IH _ Hn2).
   destruct (step_cases p s o) as [H|(c & Ec & He)].
-  - destruct o as [| |r|now d]; try discriminate; cbn [step fst].
+  - destruct o as [| |r|now d|nowf]; try discriminate; cbn [step fst].
     + unfold start. destruct (active s); reflexivity.
     + reflexivity.
     + destruct (step_cases p s (Check now d)) as [H'|(c & Ec & He)].
       * assert (S := step_silent p s (Check now d) H' eq_refl). cbn zeta in S.
         destruct S as (_ & _ & _ & _ & _ & _ & _ & _ & _ & S & _). apply S. reflexivity.
       * rewrite H in Ec. discriminate.
+    + reflexivity.
   - destruct He as (now & d & r & _ & _ & _ & _ & _ & _ & Et & _). exact Et.
 Qed.
 
@@ -731,6 +736,31 @@ Proof.
 Qed.
 
 (* the values named in the property text *)
+(* ---- failed hand-overs (Annex B.2.5) ------------------------------------------------------ *)
+
+(* A timer check at which the CAM cannot be handed over leaves no trace: the state is the one
+   before the check, and every later CAM (time, low-frequency container, content) is the one
+   the history without that check produces. *)
+Lemma tr_failed_check_no_trace pre t post :
+  reach (pre ++ [CheckFail t]) = reach pre /\
+  outs (pre ++ [CheckFail t] ++ post) = outs (pre ++ post).
+Proof.
+  split.
+  - rewrite reach_snoc. reflexivity.
+  - rewrite !outs_app. f_equal. cbn [app]. rewrite run_cons. cbn [step fst snd app]. reflexivity.
+Qed.
+
+(* concrete run: a vehicle moving 5 m per check sends a CAM every 100 ms; the one due at 1500 with
+   the low-frequency container (last one at 1000) fails; the CAM at 1600 carries the container
+   (the failed one did not restart the interval) and the one at 1700 does not *)
+Lemma failed_run :
+  snd (run gen_params (init gen_params)
+         [Rep rep0; Start; Check 1000 0; Check 1100 (5 # 1); Check 1200 (5 # 1); Check 1300 (5 # 1);
+          Check 1400 (5 # 1); CheckFail 1500; Check 1600 (5 # 1); Check 1700 (5 # 1)])
+  = [Cam 1000 true 7168 0; Cam 1100 false 7168 0; Cam 1200 false 7168 0; Cam 1300 false 7168 0;
+     Cam 1400 false 7168 0; Cam 1600 true 7168 0; Cam 1700 false 7168 0].
+Proof. vm_compute. reflexivity. Qed.
+
 Lemma cam_constants :
   T_GEN_CAM_MIN = 100 /\ T_GEN_CAM_MAX = 1000 /\ T_CHECK_CAM_GEN <= T_GEN_CAM_MIN /\ 0 <= T_CHECK_CAM_GEN /\
   T_GEN_CAM_MIN <= T_GEN_CAM_DCC <= T_GEN_CAM_MAX /\ T_GEN_CAM_LF_MS = 500 /\
